@@ -140,7 +140,8 @@ pub fn gen_mapping(r: &mut Rng, o: &GenOpts) -> String {
                 s.push_str(&format!("    {} fld{} -> f{}", r.pick(TYPES), r.below(3), nl));
             }
             if o.noise && r.chance(1, 10) {
-                s.push_str(*r.pick(&["garbage line", "  two spaces", "# just a comment", "a -> b", "    void nope()", "\t", " "]));
+                s.push_str(*r.pick(&["garbage line", "  two spaces", "# just a comment", "a -> b", "    void nope()", "\t", " ",
+                    "  éa.B -> c:", "  xéa.B -> c:", "  ééa.B -> c:", "x é a.B -> c: extra", "    nope é x.Y -> z:", "  ü    void f() -> g", "  xyzü    1:2:void f() -> g"]));
                 s.push_str(nl);
             }
             if o.noise && r.chance(1, 10) {
